@@ -241,6 +241,9 @@ func ParseSearchQueryPlaceholdersSettings(statement sqlparser.Statement, schemaS
 				colName = expr
 			case *sqlparser.SubstrExpr:
 				colName = expr.Name
+			default:
+				// not a comparison of a column, e.g. convert(substr(column, ...), binary) = <hash> of an already rewritten literal
+				return true, nil
 			}
 
 			columnInfo, err := FindColumnInfo(tableExps, colName, schemaStore)
